@@ -104,6 +104,18 @@ def gen_cases(ctx):
         vals = [rng.choice(["nan", 1.0, 2.0, 3.0, 4.0, 2.5]) for _ in range(nrow)]
         vals[rng.randrange(nrow)] = "nan"
         cases.append({"op": "inproc", "helper": h, "kind": "float", "args": a, "vals": vals, "g": [rng.randint(0, 1) for _ in range(nrow)]})
+    # ... and the same for EVERY such helper on two fixed frames (no draw decides which helper meets a kept missing value)
+    for vals, g in (([1.0, "nan", 3.0, 2.0, 4.0, 2.5, 2.0, "nan", 1.0], [0, 0, 0, 0, 0, 1, 1, 1, 1]), ([4.0, 2.0, "nan", 1.0, 3.0, 2.5, 1.0], [0, 0, 0, 0, 1, 1, 1])):
+        for h in ("quantile", "mean", "sum", "min", "max", "std", "var", "count", "first", "last", "nth", "median", "count_unique"):
+            for q in (("1/4", "1/2", "9/10") if h == "quantile" else (None,)):
+                a = {"drop_na": False}
+                if q:
+                    a["q"] = q
+                if h in ("std", "var"):
+                    a["ddof"] = 0
+                if h == "nth":
+                    a["index"] = 1
+                cases.append({"op": "inproc", "helper": h, "kind": "float", "args": a, "vals": list(vals), "g": list(g)})
     # big groups (beyond any small-size special case of a kernel: 100+ rows) whose equal values are NOT adjacent, next to a
     # small group, for every helper and every Numba-eligible kind
     for kind in ("int", "float", "bool", "date"):
